@@ -367,6 +367,7 @@ Inductive sink :=
 | SLog           (* flows only into logger.* arguments *)
 | SIdentityKey   (* id(x) used only as a set/dict key or membership probe while x is alive *)
 | SEncryptOnly   (* inside an encrypt routine, not reachable from extraction *)
+| SOrderKept     (* worker pool whose results are consumed in submission order (executor.map, futures in list order) *)
 | SResult        (* anything else: may reach the result *).
 Definition nd_site := (str * str * Z * str * sink)%type.
 Definition sink_ok (k : sink) : bool := match k with SResult => false | _ => true end.
@@ -376,10 +377,11 @@ Record stream := mkStream { s_buf : list N; s_pos : Z }.
 
 Inductive sop :=
 | OTell | OSeek (n : Z) | ORead (n : option Z) | OGetvalue
-| OWrite (data : list N) | OTruncate (n : Z).
+| OWrite (data : list N) | OTruncate (n : Z)
+| OClose   (* close(), also through an owning wrapper (io.TextIOWrapper / BufferedReader not detach()ed) or `with` *).
 
 Definition readonly (o : sop) : bool :=
-  match o with OWrite _ | OTruncate _ => false | _ => true end.
+  match o with OWrite _ | OTruncate _ | OClose => false | _ => true end.
 
 Definition blen (st : stream) : Z := Z.of_nat (List.length (s_buf st)).
 
@@ -395,6 +397,7 @@ Definition exec_op (o : sop) (st : stream) : stream :=
   | ORead (Some k) => mkStream (s_buf st) (Z.max (s_pos st) (Z.min (blen st) (s_pos st + Z.max 0 k)))
   | OWrite d => mkStream (write_at (s_buf st) (Z.to_nat (s_pos st)) d) (s_pos st + Z.of_nat (List.length d))
   | OTruncate n => mkStream (firstn (Z.to_nat n) (s_buf st)) (s_pos st)
+  | OClose => mkStream [] 0     (* after close() none of the content can be read back by the caller *)
   end.
 
 Definition exec (ops : list sop) (st : stream) : stream := fold_left (fun a o => exec_op o a) ops st.
